@@ -902,7 +902,11 @@ def p_field(rng, f, which=None):
                 ps.append(["extra_term", {"s": "v"}])
         elif which == "cr_coords":
             # the changed key must denote a construct that differs from the one replaced
-            if r["coords"] and rng.random() < 0.5:
+            cand = [k for k in ckeys if k not in r["coords"]]
+            if r["coords"] and cand and rng.random() < 0.5:
+                # same number of coordinates, one of them another construct
+                r["coords"] = [rng.choice(cand)] + r["coords"][1:]
+            elif r["coords"] and rng.random() < 0.5:
                 r["coords"] = r["coords"][1:]
             else:
                 cand = [k for k in ckeys if k not in r["coords"]]
@@ -912,10 +916,13 @@ def p_field(rng, f, which=None):
         elif which == "cr_term":
             if r["cdas"] and rng.random() < 0.6:
                 t = rng.choice(r["cdas"])
+                others = [k for k in dkeys if k != t[1]]
                 if t[1] is None:
                     if not dkeys:
                         return None
                     t[1] = rng.choice(dkeys)
+                elif others and rng.random() < 0.6:
+                    t[1] = rng.choice(others)       # another domain ancillary for the same term
                 else:
                     t[1] = None
             else:
@@ -1128,6 +1135,40 @@ def generate(chk):
             cases.append(mk_case("field-perturbed", "field", x, y, o, pc, lvl))
             if rng.random() < 0.5:
                 cases.append(mk_case("field-perturbed", "field", y, x, o, pc, lvl))
+
+    # (c2) directed: coordinate references whose coordinate / domain ancillary keys are exchanged
+    #      for those of other constructs (same counts, same term names)
+    for _ in range(80 * scale):
+        for _try in range(30):
+            x = gen_field(rng, rng.random() < 0.8)
+            ck = [t[0] for t in x["cons"] if t[2]["cls"] in ("dim", "aux")]
+            dk = [t[0] for t in x["cons"] if t[2]["cls"] == "domanc"]
+            if len(ck) >= 2 and len(dk) >= 2:
+                break
+        else:
+            continue
+        byk = {t[0]: lib.canon([t[1], t[2]]) for t in x["cons"]}
+        rng.shuffle(ck)
+        rng.shuffle(dk)
+        if byk[ck[0]] == byk[ck[1]] or byk[dk[0]] == byk[dk[1]]:
+            continue
+        cr = gen_cr(rng, ck, dk)
+        cr["coords"] = [ck[0]] + [k for k in cr["coords"] if k not in (ck[0], ck[1])][:1]
+        cr["cdas"] = [["a", dk[0]]] + [t for t in cr["cdas"] if t[0] != "a" and t[1] != dk[1]][:1]
+        x["crs"] = [["coordinatereference0", cr]] + x["crs"][:1]
+        y = copy.deepcopy(x)
+        o = gen_opts(rng, loose_p=0.2)
+        if rng.random() < 0.5:
+            y["crs"][0][1]["coords"][0] = ck[1]
+            pc = "cr_coords"
+        else:
+            y["crs"][0][1]["cdas"][0][1] = dk[1]
+            pc = "cr_term"
+        if rng.random() < 0.4:
+            y = rename_keys(y, rng) if rng.random() < 0.5 else reorder(y, rng)
+        cases.append(mk_case("field-cref-directed", "field", x, y, o, pc, "top"))
+        if rng.random() < 0.5:
+            cases.append(mk_case("field-cref-directed", "field", y, x, o, pc, "top"))
 
     # (d) malformed / unusual stream: axes without size, cell methods on axes nothing spans,
     #     too few intervals, other types, non-constructs
